@@ -158,6 +158,8 @@ theorem mem_liveNext (live : Conn → List Scope) (o : Obs) (c : Conn) (s : Scop
     | deactivate s' => simp [liveNext, endsReply]
     | ident => simp [liveNext, endsReply]
     | disconnect => simp [liveNext, endsReply]
+    | rw w m p e => simp [liveNext, endsReply]
+    | malformed a s => simp [liveNext, endsReply]
   | reply c' r ok =>
     simp only [liveNext, endsReply, reduceCtorEq, false_or]
     split
